@@ -101,12 +101,11 @@ impl TrackerClient {
         let info_hash: String = form_urlencoded::byte_serialize(metainfo.info_hash()).collect();
         let url = metainfo.tracker_url();
         // Announce URL can already contain query string
-        let separator = if !url.contains('?') {
-            "?"
-        } else if url.ends_with('?') || url.ends_with('&') {
-            ""
-        } else {
-            "&"
+        let separator = match url.find('?') {
+            None => "?",
+            // Empty query ("...announce?") or query already terminated with "&"
+            Some(pos) if pos == url.len() - 1 || url.ends_with('&') => "",
+            Some(_) => "&",
         };
         url.clone() + separator + "info_hash=" + info_hash.as_str()
     }
